@@ -506,7 +506,7 @@ func c02Run(c *Case) {
 func init() {
 	register(&Prop{
 		ID: "C02", Level: "exploration",
-		Rule:          "enumerated: every sequence of 1-3 rule kinds (155) x {no action, next at rule i, exit at rule i} x 4 root shapes (array, object with array member, scalar, empty array) x {1,2} values x {0,2} selectors; sampled: 1-8 rules in random source order, 1-3 files x 0-3 values (9 root shapes, varied separators) x 0-3 selectors, patterns of every truth value, bodies printing tag/$file/$index/$, next/exit placed unconditionally and data-dependent, rules without body. a third of the cases with >= 2 selectors get a selector that prints, fails or exits when evaluated (selectors are evaluated one by one, each when its turn comes). Oracle: stdout trace and the sequence of rule activations (hook verifRule) vs the schedule model of DESIGN 3.7; with one input file also the root left for -o after the run (exit in BEGINFILE included). 4 runs of the binary with a named pipe that never gets a writer among the operands: exit in BEGIN / in a rule or ENDFILE of an earlier file ends the run (verdict from the process state via /proc: exited, or asleep without using CPU). Non-trivial = at least 2 rule activations (sampled: >= 2 kinds active and a pattern rule); distinct by configuration + program text.",
+		Rule:          "enumerated: every sequence of 1-3 rule kinds (155) x {no action, next at rule i, exit at rule i} x 4 root shapes (array, object with array member, scalar, empty array) x {1,2} values x {0,2} selectors; sampled: 1-8 rules in random source order, 1-3 files x 0-3 values (9 root shapes, varied separators) x 0-3 selectors, patterns of every truth value, bodies printing tag/$file/$index/$, next/exit placed unconditionally and data-dependent, rules without body. a third of the cases with >= 2 selectors get a selector that prints, fails or exits when evaluated (selectors are evaluated one by one, each when its turn comes). Oracle: stdout trace and the sequence of rule activations (hook verifRule) vs the schedule model of DESIGN 3.7; with one input file also the root left for -o after the run (exit in BEGINFILE included). 4 runs of the binary with a named pipe that never gets a writer among the operands: exit in BEGIN / in a rule or ENDFILE of an earlier file ends the run (verdict from the process state via /proc: exited, or asleep without using CPU). Non-trivial = at least 2 rule activations (sampled: >= 2 kinds active and a pattern rule); distinct by configuration + program text. 90 two-value files under a limit of 32 open descriptors.",
 		NumCases:      c02Cases,
 		Run:           c02Run,
 		MinConclusive: func(tier string) int { return 20000 },
